@@ -403,6 +403,8 @@ func c06(c *Ctx) {
 	flateWrapperRule(c, "C06.limit-on-wire-bytes")
 	rd.inflateWrap("C06.limit-on-wire-bytes")
 	limitErrorOwners(c, rd, "C06.limit-on-wire-bytes")
+	r.Rule("C06.close-1009-private", "the 1009 close frame is the frame WriteControl puts on the wire: it is assembled in memory private to the call, so a concurrent ping/pong WriteControl cannot overwrite it while it waits for or holds the write lock (same rule as C08.reply-private)")
+	newTransport(c).noSharedBeforeLock("C06.close-1009-private")
 	r.Rule("C06.error-reaches-reader", "ErrReadLimit reaches whoever reads the message: every Read method layered over the message reader passes inner errors other than io.EOF on (same rule as C05.reader-wrappers)")
 	if c.readerWrappers("C06.error-reaches-reader") < 4 {
 		r.Fail("C06.error-reaches-reader", "package", "floor", c.fn("(*joinReader).Read").Pos(), "fewer than the 4 known reader wrappers were analysed")
